@@ -960,6 +960,9 @@ func (v *View) Resolve(op Op) *TxMeta {
 		var ic *IssuedCheck
 		if op.x(0) >= 0 && len(v.Issued) > 0 {
 			ic = v.Issued[mod(op.x(0), len(v.Issued))]
+			if op.x(0) == 999999 { // the check issued last
+				ic = v.Issued[len(v.Issued)-1]
+			}
 		} else {
 			issuer := mod(op.x(1), v.NAcct)
 			coin := v.coinHeld(Acct(issuer).Addr, op.x(3))
